@@ -427,7 +427,9 @@ def rot_matrix(r, xp=jnp):
 
 
 def embed(h):
-    return jnp.zeros((3, 3)).at[0:2, 0:2].set(h)
+    """plane-strain displacement gradient exactly as the library builds it"""
+    from optimism import TensorMath
+    return TensorMath.tensor_2D_to_3D(h)
 
 
 def omatmul(A, B):
